@@ -366,11 +366,15 @@ func (S *Specs) parseClause(file string, line int, cur *FuncSpec, word, rest str
 		cur.Waive = append(cur.Waive, &Waiver{Kind: k, Text: txt, Reason: r})
 	case "loop":
 		// loop "header text" invariant|decreases expr
-		if !strings.HasPrefix(rest, "\"") {
+		q := "\""
+		if strings.HasPrefix(rest, "`") {
+			q = "`"
+		}
+		if !strings.HasPrefix(rest, q) {
 			S.errf(file, line, "loop: expected quoted header")
 			return
 		}
-		j := strings.Index(rest[1:], "\"")
+		j := strings.Index(rest[1:], q)
 		if j < 0 {
 			S.errf(file, line, "loop: unterminated header")
 			return
